@@ -138,11 +138,23 @@ func newSorts() *Sorts {
 }
 
 func structName(t types.Type) string {
+	var obj *types.TypeName
 	if n, ok := t.(*types.Named); ok {
-		return n.Obj().Name()
+		obj = n.Obj()
 	}
 	if n, ok := t.(*types.Alias); ok {
-		return n.Obj().Name()
+		obj = n.Obj()
+	}
+	if obj != nil {
+		// types of the repository keep their short name; others are qualified by their import path
+		// (e.g. sync.Mutex embeds internal/sync.Mutex)
+		if obj.Pkg() == nil || strings.HasPrefix(obj.Pkg().Path(), "github.com/tigerwill90/fox") {
+			if n, ok := t.(*types.Named); ok && n.TypeArgs() != nil && n.TypeArgs().Len() > 0 {
+				return sanitize(types.TypeString(t, func(p *types.Package) string { return p.Name() }))
+			}
+			return obj.Name()
+		}
+		return sanitize(types.TypeString(t, nil))
 	}
 	return "anon" + sanitize(typeKey(t))
 }
